@@ -162,6 +162,14 @@ pub(super) mod udp {
     }
 
     #[cfg(octo_squirrel_verif)]
+    impl<'a, const N: usize> Client<'a, N> {
+        /// the codec `new_plain_outbound` builds, without the socket
+        pub fn verif_new_codec(&self) -> DatagramPacketCodec<'a, N> {
+            DatagramPacketCodec::new(SessionCodec::new(Context::new(Mode::Client, None, self.key, self.identity_keys), AEADCipherCodec::new(self.kind)))
+        }
+    }
+
+    #[cfg(octo_squirrel_verif)]
     impl<const N: usize> DatagramPacketCodec<'_, N> {
         pub fn verif_set_packet_id(&mut self, packet_id: u64) {
             self.session.packet_id = packet_id;
